@@ -7,7 +7,7 @@ import numpy as np
 
 from common import R
 
-LEAN_MODULES = ["PyomaVerif.Props.C10", "PyomaVerif.Mutants.C10", "PyomaVerif.Props.C09", "PyomaVerif.Props.WiringRun", "PyomaVerif.Props.C09All", "PyomaVerif.Props.C18MacLink", "PyomaVerif.Props.WiringStore", "PyomaVerif.Props.WiringClass", "PyomaVerif.Props.WiringCalls"]
+LEAN_MODULES = ["PyomaVerif.Props.C10", "PyomaVerif.Mutants.C10", "PyomaVerif.Props.C09", "PyomaVerif.Props.WiringRun", "PyomaVerif.Props.C09All", "PyomaVerif.Props.C18MacLink", "PyomaVerif.Props.WiringStore", "PyomaVerif.Props.WiringClass", "PyomaVerif.Props.WiringCalls", "PyomaVerif.Props.C10Table"]
 THEOREMS = [
     # C10 o C09: the labels of every class are SC_apply of the FILTERED tables it returns; stable <=> kept pole whose
     # first nearest kept pole of the previous order is within the tolerances; removed poles never stable / never reference
@@ -52,6 +52,9 @@ THEOREMS = [
     "PV.C10.Mutants.next_order_mutant_differs",
     "PV.C10.Mutants.nan_argmin_mutant_differs",
     "PV.C10.Mutants.last_nearest_mutant_differs",
+    # table widths derived from the pole-table models (Model/Poles.lean): pLSCF Fn.c = ordmax, SSI Fn.c = ordmax + 1
+    "PV.C10.C10_plscf_shift_table",
+    "PV.C10.C10_ssi_table",
 ]
 RULE = (
     "correspondence: gen.SC_apply vs Stab.scApply on random pole tables (<= 12x12 quick, <= 40 orders thorough; values on a "
